@@ -42,19 +42,20 @@ def main() -> None:
         n = os.readv(0, bufs)
         if n < 9:
             os._exit(0)
-        pid = os.fork()
-        if pid == 0:
+        if os.fork() == 0:  # no variable: the parent must not hold the pid int across forks
             break
     # ---- child: one session
-    num = int(bytes(buf[:8]))
+    # the session number is never turned into an int: ints above 256 are heap objects, and a
+    # session must not start from a different heap because of the number it was given
+    tag = bytes(buf[:8])
     os.close(0)
     signal.signal(signal.SIGCHLD, signal.SIG_DFL)
-    scratch = os.path.join(base, "s%08d" % num)
-    os.write(1, b"S %d %d\n" % (num, os.getpid()))
+    scratch = os.path.join(base, "s" + tag.decode())
+    os.write(1, b"S " + tag + b" " + str(os.getpid()).encode() + b"\n")
     try:
         session.run_session(scratch)
     finally:
-        os.write(1, b"D %d\n" % num)
+        os.write(1, b"D " + tag + b"\n")
         sys.stdout.flush()
         os._exit(0)
 
